@@ -62,6 +62,8 @@ def _work(case):
 
 def main():
     global _MOD
+    import warnings
+    warnings.simplefilter("ignore")   # harness-side only; C17 manages the filters it observes itself
     ap = argparse.ArgumentParser()
     ap.add_argument("prop")
     ap.add_argument("--tier", default=os.environ.get("VERIF_TIER", "quick"), choices=["quick", "thorough"])
